@@ -478,6 +478,7 @@ func (c09) Run(t *testing.T, tape *core.Tape, rcx *RunCtx) *core.Result {
 	leak, pv := core.Bubble(t, func() {
 		sim = core.NewSim(tape)
 		sim.Record = rcx.Record
+		sim.TimeJitter = true
 		sim.MaxSteps = sc.Budget
 		sim.MaxTasks = sc.TaskCap
 		sim.Go(func() {
